@@ -1,5 +1,6 @@
 import SC.Properties.C04
 import SC.Properties.C09
+import SC.Proofs.RIndex
 /-!
 # C07 — strcase and bytcase are the same function on the same bytes
 
@@ -33,6 +34,12 @@ theorem affix_parity (cfg : A.Cfg) (s p : Bytes) :
     A.TrimSuffix (str cfg) s p = A.TrimSuffix (byt cfg) s p ∧ A.CutSuffix (str cfg) s p = A.CutSuffix (byt cfg) s p := by
   simp only [C09.hasPrefix_refines, C09.trimPrefix_refines, C09.cutPrefix_refines, C09.hasSuffix_refines,
     C09.trimSuffix_refines, C09.cutSuffix_refines, and_self]
+
+/-- Index / Contains / IndexRune / ContainsRune: both packages refine the same specification -/
+theorem index_parity (cfg : A.Cfg) (s sub : Bytes) (r : Int) :
+    A.Index (str cfg) s sub = A.Index (byt cfg) s sub ∧ A.Contains (str cfg) s sub = A.Contains (byt cfg) s sub ∧
+    A.IndexRune (str cfg) s r = A.IndexRune (byt cfg) s r ∧ A.ContainsRune (str cfg) s r = A.ContainsRune (byt cfg) s r := by
+  simp only [A.Index_eq, A.Contains_eq, A.IndexRune_eq, A.ContainsRune_eq, and_self]
 
 example : A.Compare (str {}) [0xFF, 0x41] [0xEF, 0xBF, 0xBD, 0x61] = 0 := by decide +kernel
 end C07
